@@ -31,6 +31,8 @@ type c04Case struct {
 	UpdateOpt *bool     `json:"update_option"` // Update option of the updating process
 	Mode3     Mode      `json:"mode3"`
 	Upd3      *bool     `json:"update_option3"`
+	// CRLF: after the recording run the multi-entry file is converted to CRLF line ends (a checkout with core.autocrlf)
+	CRLF bool `json:"file_converted_to_crlf,omitempty"`
 }
 
 // fullKey: identity of the stored text for all five APIs.
@@ -201,6 +203,7 @@ func genC04(t *rapid.T) c04Case {
 		c.UpdateEnv = rapid.SampledFrom([]string{"", "clean", "false", "1"}).Draw(t, "env")
 	}
 	c.Mode3, c.Upd3 = genReadOnlyMode(t)
+	c.CRLF = rapid.IntRange(0, 4).Draw(t, "crlf") == 0
 	return c
 }
 
@@ -239,6 +242,18 @@ func checkC04(c c04Case) error {
 	expected, err := refParse(readFile(multi))
 	if err != nil && readFile(multi) != "" {
 		return fmt.Errorf("file after recording is not well formed: %v", err)
+	}
+
+	crlf := false
+	if data := readFile(multi); c.CRLF && data != "" && !strings.Contains(data, "\r") {
+		os.WriteFile(multi, []byte(strings.ReplaceAll(data, "\n", "\r\n")), 0o644)
+		crlf = true
+	}
+	lf := func(s string) string {
+		if crlf {
+			return strings.ReplaceAll(s, "\r\n", "\n") // line ends are not part of what a snapshot holds
+		}
+		return s
 	}
 
 	// process 2: updating enabled
@@ -311,7 +326,7 @@ func checkC04(c c04Case) error {
 			if idx < 0 {
 				return fmt.Errorf("harness: slot %q missing from the expected list", id)
 			}
-			got, perr := refParse(after[file].Data)
+			got, perr := refParse(lf(after[file].Data))
 			if perr != nil {
 				return fmt.Errorf("update run %s call %d: after rewriting %q the file is not well formed (residue?): %v; content %q", tc.Name, k+1, id, perr, clip(after[file].Data))
 			}
@@ -380,6 +395,14 @@ func checkStandaloneJSON(got, doc string) error {
 }
 
 func classifyC04(c c04Case) ([]string, bool) {
+	if c.CRLF {
+		cls0, nt0 := classifyC04Base(c)
+		return append(cls0, "file_converted_to_crlf_before_the_update"), nt0
+	}
+	return classifyC04Base(c)
+}
+
+func classifyC04Base(c c04Case) ([]string, bool) {
 	var cls []string
 	changedEntries := 0
 	for _, tc := range c.Tests {
